@@ -15,7 +15,7 @@ An abstract document is a plain dict (JSON-able):
 Expressions E are nested lists:
   ["num", p, q] (p/q, q a power of two)   ["sym", id]   ["add"|"sub"|"mul"|"div", a, b]   ["neg", a]
   ["pow", a, n] (n a small non-negative integer)          ["call", f, [args]]
-  ["pw", v1, ["lt"|"le"|"gt"|"ge", a, b], v2]  (piecewise v1 if cond else v2)
+  ["pw", v1, ["lt"|"le"|"gt"|"ge"|"eq"|"ne", a, b], v2]  (piecewise v1 if cond else v2; eq/ne since round 3)
   ["exp"|"ln"|"sin"|"cos"|"sqrt"|"abs", a]
 
 `meaning(doc)` is the INDEPENDENT reading of the document (SBML L3 semantics of this subset); it
@@ -75,7 +75,8 @@ def _ast(e, libsbml):
     if k == "pw":
         n = A(libsbml.AST_FUNCTION_PIECEWISE)
         n.addChild(_ast(e[1], libsbml))
-        rel = {"lt": libsbml.AST_RELATIONAL_LT, "le": libsbml.AST_RELATIONAL_LEQ, "gt": libsbml.AST_RELATIONAL_GT, "ge": libsbml.AST_RELATIONAL_GEQ}
+        rel = {"lt": libsbml.AST_RELATIONAL_LT, "le": libsbml.AST_RELATIONAL_LEQ, "gt": libsbml.AST_RELATIONAL_GT, "ge": libsbml.AST_RELATIONAL_GEQ,
+               "eq": libsbml.AST_RELATIONAL_EQ, "ne": libsbml.AST_RELATIONAL_NEQ}
         c = A(rel[e[2][0]])
         c.addChild(_ast(e[2][1], libsbml))
         c.addChild(_ast(e[2][2], libsbml))
@@ -285,7 +286,8 @@ def ev(e, env: dict[str, Num], fns: dict[str, tuple[list[str], Any]]) -> Num:
     if k == "pw":
         rel, a, b = e[2]
         x, y = ev(a, env, fns), ev(b, env, fns)
-        c = {"lt": x < y, "le": x <= y, "gt": x > y, "ge": x >= y}[rel]
+        # MathML eq / neq compare the two VALUES (no tolerance)
+        c = {"lt": x < y, "le": x <= y, "gt": x > y, "ge": x >= y, "eq": x == y, "ne": x != y}[rel]
         return ev(e[1], env, fns) if c else ev(e[3], env, fns)
     a = ev(e[1], env, fns)
     if k == "abs":
